@@ -191,6 +191,10 @@ func (m *vestingMonitor) AfterTx(r *kernel.Run, tx *kernel.Tx, msgs []sdk.Msg, r
 	post := takeVSnap(r.Chain, m.C05)
 	pre := m.pre
 	custom := isCustomMsg(msg)
+	if pre.denom != post.denom && len(pre.pools) > 0 {
+		// pools carry amounts only, their denomination is the module parameter: every oracle below presupposes this
+		r.Violate("C13", "denom-locked", "vesting-denom-changed-with-pools", "%s changed the vesting denomination from %s to %s while %d owners have pools", sdk.MsgTypeURL(msg), pre.denom, post.denom, len(pre.pools))
+	}
 	if m.C17 {
 		m.updateLineage(r, msg, res, pre, post)
 	}
